@@ -45,7 +45,9 @@ HttpStep(st, m, ver) ==
       [] t = "http.response.body" ->
             IF s = "REQUEST" THEN R(st, "raise")
             ELSE IF s = "RESPONSE"
-                 THEN R([st EXCEPT !.s = IF m.more THEN "RESPONSE" ELSE IF st.tflag /\ h2 THEN "TRAILERS" ELSE "CLOSED"], "ok")
+                 \* (a response that announced trailers is not complete before them - on HTTP/1.1, where the
+                 \*  scope does not offer the extension, what follows is unspecified rather than "after completion")
+                 THEN R([st EXCEPT !.s = IF m.more THEN "RESPONSE" ELSE IF st.tflag THEN "TRAILERS" ELSE "CLOSED"], "ok")
                  ELSE R(st, "any")
       [] t = "http.response.trailers" ->
             IF s = "TRAILERS" /\ h2
